@@ -91,10 +91,10 @@ __CPROVER_ensures(self->hllByteArr_[slotNo >> 1] == ((slotNo & 1) ? (uint8_t)((_
 '''
 
 
-def stop_before_loop_block(total=1, stop_text="{ g_stopped = 1; return; }"):
-    """structural rule for prefix jobs: the innermost { } block enclosing loop #1 is replaced by `stop_text` (the function returns there);
-    everything textually before that block is verified by the job, the block itself by another job."""
-    k = keep_only_loop(0, total)
+def stop_before_loop_block(total=1, stop_text="{ g_stopped = 1; return; }", keep=0):
+    """structural rule for prefix jobs: the innermost { } block enclosing every loop other than #keep (keep=0: every loop) is replaced by `stop_text`
+    (the function returns there); everything else is verified by the job, the blocks themselves by another job."""
+    k = keep_only_loop(keep, total)
     def rule(body):
         body2, n = k(body)
         return body2.replace('{ __CPROVER_assert(0, "excluded by the case precondition of this job"); }', stop_text), n
